@@ -34,12 +34,19 @@ CLAIMED = {
         technique="contract-based deductive verification: symbolic execution of the real Python source against sidecar contracts, VCs discharged by z3 (cvc5 for unknowns)",
         design="3/C07",
     ),
+    "C15": dict(
+        category="proof",
+        text="Contracts on compute_instance_area and compute_oks: the result equals the closed form sum over gt-visible nodes of (prediction missing ? 0 : exp(-d^2/norm)) / #gt-visible (both normalisations, scalar scale or bounding-box area) for any number of gt/predicted instances, coordinates and NaN patterns; from it: OKS in [0,1], 1 for identical poses, gt-missing nodes ignored, prediction-missing nodes score 0, result entry (g,p) depends only on poses g and p (re-ordering instances permutes the matrix), and no exception escapes. The IndexError for more than one prediction in the pinned tree was found by the totality obligation and repaired (fix: commit 727654a).",
+        note="node axis unrolled (1..2 nodes quick, 1..4 thorough); domain: >= 1 gt-visible node, stddev > 0, scale >= 0; numpy op models trusted and cross-checked. Not decided: monotonicity in the keypoint distance, translation invariance as a separate obligation, match_instances / greedy_matching / compute_iou / compute_cosine_sim.",
+        technique="contract-based deductive verification: symbolic execution of the real Python source against sidecar contracts, generic arithmetic lemmas instantiated explicitly, VCs discharged by z3 (cvc5 for unknowns)",
+        design="3/C15",
+    ),
 }
 
 NOT_APPLICABLE = {
     "C19": "no pre/postcondition on a function of this repository expresses it: training completion, artifacts and crash-point file contents live in Lightning/wandb/OmegaConf and the file system (DESIGN.md section 5)",
 }
-NOT_BUILT = ["C02", "C03", "C04", "C08", "C09", "C10", "C11", "C12", "C13", "C14", "C15", "C16", "C17", "C18", "C20"]
+NOT_BUILT = ["C02", "C03", "C04", "C08", "C09", "C10", "C11", "C12", "C13", "C14", "C16", "C17", "C18", "C20"]
 
 
 def main():
